@@ -37,4 +37,22 @@ inline std::string symbolizePc( void* pc)
    return s;
 }
 
+/// the innermost frame; if that is a libc/sanitizer routine (memcpy, operator
+/// delete, ...) the first caller with a known source position is added
+inline std::string symbolizeAccess( void* const* pcs, int n)
+{
+   std::string  first = symbolizePc( n > 0 ? pcs[ 0] : nullptr);
+   if (first.find( "<null>") == std::string::npos && first.find( "__interceptor") == std::string::npos)
+      return first;
+   for (int k = 1; k < n; ++k)
+   {
+      if (pcs[ k] == nullptr) break;
+      // return addresses: the call is one instruction before
+      std::string  s = symbolizePc( static_cast< char*>( pcs[ k]) - 1);
+      if (s.find( "<null>") == std::string::npos && s.find( "__interceptor") == std::string::npos)
+         return first.substr( 0, first.find( ' ')) + " called from " + s;
+   }
+   return first;
+}
+
 } // namespace sim
